@@ -100,6 +100,7 @@ package proc
 //@   modifies all
 //@   proves @waits-for-the-serve-loop waitedfor(l.done)
 //@   callpre Close @closes-the-registered-connections-after-clearing-the-registry l.conns == nil
+//@   alsoprop C20 : closes-the-registered-connections-after-clearing-the-registry
 
 // ---- C08: a processor is built by the builder of the configured protocol, for the requested service ----------
 
